@@ -143,14 +143,14 @@ Goal True. idtac "ASSUME C10_tie_minor_keep". Abort.
 Print Assumptions C10_tie_minor_keep.
 
 Theorem C10_tie_major_carry : forall min_cn cns j, In j (major_candidates min_cn cns) ->
-  jc_score j = (ma_raw (jc_in j) + sel_major_carry (cn_score (jc_cn j)) min_cn)%Q.
+  (jc_score j == ma_raw (jc_in j) + sel_major_carry (cn_score (jc_cn j)) min_cn)%Q.
 Proof. exact sel_major_carry_tied. Qed.
 Goal True. idtac "ASSUME C10_tie_major_carry". Abort.
 Print Assumptions C10_tie_major_carry.
 
 Theorem C10_tie_combined : forall c min_cn min_major j m,
-  combined c min_cn min_major j m =
-  sel_rescale (mi_raw m + sel_minor_carry (jc_score j) min_major)%Q (cn_score (jc_cn j)) min_cn (c_slack c).
+  (combined c min_cn min_major j m ==
+   sel_rescale (mi_raw m + sel_minor_carry (jc_score j) min_major) (cn_score (jc_cn j)) min_cn (c_slack c))%Q.
 Proof. exact sel_combined_tied. Qed.
 Goal True. idtac "ASSUME C10_tie_combined". Abort.
 Print Assumptions C10_tie_combined.
